@@ -26,11 +26,25 @@ def run(ctx):
     nmodels = batch(trees, scen, 12 if ctx.quick else 4)
     trace = ctx.execute("codegen", scen, timeout_s=120)
     ctx.validate("Codegen", "Trace_Codegen.tla", "Trace_Codegen.cfg", trace, "codegen", parallel=12)
+    # system level: roles, dependency order, rates, scaling across components (seconds / milliseconds), implicit systems
+    sysscen = os.path.join(ctx.work, "systems.scen.ndjson")
+    open(sysscen, "w").close()
+    for cfg in (["Gen_n1", "Gen_n2", "Gen_n1z", "Gen_n2z"] if ctx.quick else ["Gen_n1", "Gen_n2", "Gen_n1z", "Gen_n2z", "Gen_n3run", "Gen_n3runz"]):
+        part = ctx.gen("System", "Gen_System.tla", cfg + ".cfg", cfg, workers=8, timeout=3000, heap="12g")
+        with open(sysscen, "a") as out:
+            for line in open(part):
+                if '"kind":"none"' in line.split('"fault":')[1][:40]:
+                    out.write(line)
+    nsys = sum(1 for _ in open(sysscen))
+    strace = ctx.execute("system", sysscen, timeout_s=120)
+    ctx.validate("System", "Trace_System.tla", "Trace_C03.cfg", strace, "system", parallel=12)
+    ctx.cov["systems_compiled_and_run"] = nsys
     ctx.cov["evaluations"] = ntrees
     ctx.cov["distinct_nontrivial"] = ntrees
     ctx.cov["models_compiled_and_run"] = nmodels
     ctx.finish("model_checking",
                "579 expression trees (every parent/child/side pattern over 8 arithmetic operators, unary operators inside and outside, 6 relational and 3 logical operators incl. nesting and not, relational inside arithmetic and vice versa, "
                "11 piecewise forms, root/log with and without qualifiers, integer powers, 18 transcendental functions at their exact points, truth constants) x 4 environments of rationals; TLC computes the exact value with rational arithmetic; "
-               "the trees are batched into models, analysed, generated as C and Python, compiled/run, and every value compared (1e-9 relative); non-trivial = (tree, environment) pairs with an exactly defined value",
+               "the trees are batched into models, analysed, generated as C and Python, compiled/run, and every value compared (1e-9 relative); plus every well-posed system of 1-2 (thorough: 3) classes over {constant, computed constant, state, algebraic} "
+               "with components working in seconds / milliseconds and implicit equations: constants, computed constants, algebraic values, state initial values, rates and NLA residuals of the generated C and Python; non-trivial = (tree, environment) pairs with an exactly defined value",
                ["floating-point comparison is done by the executor against the TLC-computed rational", "transcendental functions are checked only at exact points; elsewhere only C/Python agreement would be possible"])
